@@ -44,8 +44,9 @@ CHECKS["C01"] = dict(
     category="exploration",
     text="The nonce exists only behind the entropy seam, so signing is run under a scripted random source: histories of signatures by 1-4 signers in all three API modes with tapes of boundary draws (0 - incl. several in a row -, 1, n-1, n-2), "
     "repeated draws across signatures, and digests crafted from the known next draw to force the s=0 retry, low-S negation and short / high-bit r,s. Each signature is checked by the library's verifiers (compressed and uncompressed key), "
-    "an independent ECDSA implementation, OpenSSL and a BIP66 checker; the history is checked for shared r between signatures whose (key, digest) differ while the source did not repeat; retry loops must end within 4 draws after the last injected fault.",
-    design_ref="DESIGN.md §4.1, §5 C01",
+    "an independent ECDSA implementation, OpenSSL and a BIP66 checker; the history is checked for shared r between signatures whose (key, digest) differ while the source did not repeat; retry loops must end within 4 draws after the last injected fault. "
+    "A further stratum runs 2-3 simulated caller threads signing concurrently under the baton scheduler (line-level pre-emption inside ecmath/utils/keys, freshly imported package per run) with the same per-signature and shared-r oracles.",
+    design_ref="DESIGN.md §4.1, §5 C01, §9.7",
     note="Trusted: /verif/ref/secp256k1.py, /verif/ref/ecdsa_der.py, OpenSSL. No scheduler or clock in this engine: the only simulated nondeterminism is the random source; inputs (keys, messages) are seeded. r == 0 retry is unreachable by construction.",
     technique="deterministic simulation of the entropy source (scripted boundary / repeated / crafted nonce draws behind the secrets seam) with history oracle for nonce reuse and bounded-liveness of retry loops",
 )
@@ -53,8 +54,9 @@ CHECKS["C03"] = dict(
     engine="rngsim",
     category="exploration",
     text="Scoped to the clauses of C03 that have a seam: key generation (API and `bits key` CLI in-process) is run under a scripted random source returning 0, 1, n-1, n-2, mid-range, repeated values and pairs differing only in high or low bits; "
-    "every generated key must lie in [1, n-1] and be accepted by privkey_int, its public keys (both forms) must equal the reference k*G and decode back, distinct draws must give distinct keys, and generation must terminate shortly after the last zero draw.",
-    design_ref="DESIGN.md §4.1, §5 C03",
+    "every generated key must lie in [1, n-1] and be accepted by privkey_int, its public keys (both forms) must equal the reference k*G and decode back, distinct draws must give distinct keys, and generation must terminate shortly after the last zero draw. "
+    "A further stratum runs 2-4 simulated caller threads generating keys and deriving public keys concurrently under the baton scheduler, each run from a freshly imported package, so races on shared module state show up as a wrong k*G.",
+    design_ref="DESIGN.md §4.1, §5 C03, §9.7",
     note="Only the key-generation and 'public key = kG' clauses are decided; the group-law clauses over all points/scalars are pure functions and are not claimed by this technique (exercised only incidentally through k*G). Trusted: /verif/ref/secp256k1.py.",
     technique="deterministic simulation of the entropy source (scripted boundary / repeated / paired draws) around key generation; scoped claim",
 )
@@ -127,7 +129,7 @@ def main():
             {"name": "netsim-thread", "path": "sim/sched.py sim/netsim.py sim/p2penv.py", "serves_properties": ["C18"], "kind_free_text": "virtual-time discrete-event network + baton-passing scheduler over real threads"},
             {"name": "netsim-stream", "path": "sim/netsim.py", "serves_properties": ["C17"], "kind_free_text": "virtual-time byte-stream with seeded fragmentation, corruption and EOF"},
             {"name": "fssim", "path": "sim/fssim.py", "serves_properties": ["C19"], "kind_free_text": "in-memory file system with process-crash semantics under real io.Buffered* objects; crash point enumeration"},
-            {"name": "rngsim", "path": "sim/rngsim.py", "serves_properties": ["C01", "C03"], "kind_free_text": "scripted entropy source (boundary / repeated draws) behind the secrets seam"},
+            {"name": "rngsim", "path": "sim/rngsim.py sim/callersim.py", "serves_properties": ["C01", "C03"], "kind_free_text": "scripted entropy source (boundary / repeated draws) behind the secrets seam; simulated caller threads under the baton scheduler for the concurrent strata"},
             {"name": "nodesim", "path": "sim/nodesim.py", "serves_properties": ["C16"], "kind_free_text": "in-process fake bitcoind + UTXO ledger behind the urlopen seam"},
         ],
         "checks": checks,
